@@ -276,6 +276,8 @@ Definition builtin (f : string) (args : list value) : option ctl :=
   else if f =? "is_none" then
     match args with [VCon "Some" [_]] => Some (CVal (VBool false)) | [VCon "None" []] => Some (CVal (VBool true)) | _ => None end
   else if f =? "push" then match args with [VArr l; v] => Some (CVal (VArr (l ++ [v]))) | _ => None end
+  (* slice::contains: some element equals v *)
+  else if f =? "contains" then match args with [VArr l; v] => Some (CVal (VBool (existsb (fun x => value_eqb x v) l))) | _ => None end
   (* cosmwasm_std::Response: a record of four fields; the `add_*` builder methods append to their list *)
   else if f =? "Response::new" then
     match args with
@@ -312,7 +314,7 @@ Definition builtin (f : string) (args : list value) : option ctl :=
 
 Definition is_builtin (f : string) : bool :=
   existsb (String.eqb f) ["len"; "is_empty"; "konst::cmp_str"; "konst::eq_str"; "into"; "to_string"; "Binary::default";
-                          "unwrap_or_default_string"; "anyhow::is"; "anyhow::downcast"; "unwrap"; "into_option"; "is_some"; "is_none"; "min"; "push"; "Response::new";
+                          "unwrap_or_default_string"; "anyhow::is"; "anyhow::downcast"; "unwrap"; "into_option"; "is_some"; "is_none"; "min"; "push"; "contains"; "Response::new";
                           "add_submessages"; "add_attributes"; "add_events"; "set_data"].
 
 Definition binop (op : string) (a b : value) : option ctl :=
